@@ -311,6 +311,7 @@ PROPS["C21"] = {
 }
 
 PROPS["C31"] = {
+    "ready": False,
     "level": "proof",
     "anchors": [("addr_to_index", "src/policy/sft_map.rs"), ("index_to_space_range", "src/policy/sft_map.rs"), ("has_sft_entry", "src/policy/sft_map.rs"),
                 ("space_index", "src/util/heap/layout/map64.rs"), ("get_descriptor_for_address", "src/util/heap/layout/map64.rs")],
@@ -330,6 +331,7 @@ PROPS["C31"] = {
 }
 
 PROPS["C40"] = {
+    "ready": False,
     "level": "other",
     "technique": "Kani bounded proof harness (input length <= 7) over the real RevisitableGroupBy / RevisitableGroup iterators (CBMC); bounded stand-in, not counted as proved",
     "anchors": [("RevisitableGroupBy", "src/util/rust_util/rev_group.rs"), ("RevisitableGroup", "src/util/rust_util/rev_group.rs"),
@@ -350,6 +352,7 @@ PROPS["C40"] = {
 }
 
 PROPS["C22"] = {
+    "ready": False,
     "level": "other",
     "anchors": [("find_prev_non_zero_value", "src/util/metadata/side_metadata/global.rs"), ("find_next_non_zero_value", "src/util/metadata/side_metadata/global.rs"),
                 ("scan_non_zero_values", "src/util/metadata/side_metadata/global.rs"),
